@@ -1,12 +1,83 @@
-import Poulpy.Model.Lut
+import Poulpy.Lemmas.Lut
+/-
+C14 — blind rotation evaluates the lookup table at the encrypted index.
+
+All objects are those of `Poulpy/Model/Lut.lean` (executed by the model driver): `rotate`,
+`lutSet`, `lutRotate`, `modSwitch2n`, `setXaiPlusY`, `blindPlain`, `blindExt`; `sext`, `enc`,
+`tableF`, `InRange` are specification vocabulary defined in `Lemmas/Lut.lean`.
+-/
 
 namespace C14
 open Lut
 
-/-- placeholder while the tie is being wired -/
-theorem setXaiPlusY_length (n ai : Nat) (y : Int) : (setXaiPlusY n ai y).length = n := by
-  simp [setXaiPlusY]
+/-- **rotate_spec.** `znx_rotate(p, ·)` shifts the signed 2n-periodic extension of the coefficient
+list by `p`, for every integer `p`, every coefficient index `m ∈ ℤ` (so: coefficient `j` of
+`X^p·a` is `± a[(j-p) mod n]`, minus exactly when `(j-p) mod 2n ≥ n`). -/
+theorem rotate_spec (p : Int) (a : List Vec) (hn : 0 < a.length) (hr : InRange a) (m : Int) :
+    sext (rotate p a) m = sext a (m - p) :=
+  sext_rotate p a hn (fun v hv => negV_negV v (hr v hv)) m
 
-example : setXaiPlusY 4 6 5 = [5, 0, -1, 0] := by decide
+example : rotate 5 [[1], [2], [3], [4]] = [[4], [-1], [-2], [-3]] ∧ sext [[1], [2], [3], [4]] (-5) = [4] := by decide
+
+/-- rotations compose (`X^p · X^q = X^{p+q}`) -/
+theorem rotate_add (p q : Int) (a : List Vec) (hr : InRange a) : rotate p (rotate q a) = rotate (p + q) a :=
+  rotate_rotate p q a hr
+
+example : rotate 3 (rotate (-7) [[1, 9], [2, 8], [3, 7]]) = rotate (-4) [[1, 9], [2, 8], [3, 7]] := by decide
+
+/-- **lut_eval (single polynomial, `extension_factor = 1`).**
+For every table `f` whose length divides `N` (`N = len·step`), every radix `1 ≤ b ≤ 64`, every
+admissible precision `k` (`1 ≤ ⌈k/b⌉ ≤ size`, no overflow of `f·scale`): `lookup_table_set` succeeds
+with `drift = step/2`, and after one further clear rotation by any `kk ∈ [-2N, 2N]`
+(`Left`: `kk = -t`; `Right`: `kk = +t`) the constant coefficient of the table is, on every limb,
+
+    ± enc(f[⌊u / step⌋ mod len] · scale),   u = (drift − kk) mod 2N,   minus exactly when u ≥ N,
+
+`enc` = the normalised limb vector holding the value in limb `⌈k/b⌉−1` (scaled to the top limbs),
+`scale = 2^{b − k mod b}` (1 if `b ∣ k`).  In particular `kk = −t` gives `f[⌊(t + drift)/step⌋ mod len]`. -/
+theorem lut_eval (n b kLut k step : Nat) (f : List Int) (hn : 0 < n) (hn2 : 2 * (n : Int) < 2 ^ 62) (hb : 1 ≤ b)
+    (hb2 : b ≤ 64) (hlen : 1 ≤ f.length) (hdiv : n = f.length * step)
+    (hbits : maxBitSize f + k % b < 64) (hl1 : 1 ≤ (k + b - 1) / b) (hl2 : (k + b - 1) / b ≤ (kLut + b - 1) / b)
+    (kk : Int) (hk1 : -(2 * (n : Int)) ≤ kk) (hk2 : kk ≤ 2 * (n : Int)) :
+    ∃ T p0, lutSet n 1 b kLut f k = .ok T ∧ T.drift = step / 2 ∧ lutRotate n kk T.data = [p0] ∧
+      p0[0]? =
+        (let u := ((((step / 2 : Nat) : Int) - kk) % (2 * (n : Int))).toNat
+         (f[(u % n) / step]?).map fun fi =>
+           let v := enc b ((kLut + b - 1) / b) ((k + b - 1) / b) (w64 (fi * (if k % b ≠ 0 then 2 ^ (b - k % b) else 1)))
+           if u < n then v else negV v) := by
+  have hset := lutSet_ext1 n b kLut k step f hn hn2 hb hlen hdiv hbits hl1 hl2
+  have hstep : 0 < step := by
+    rcases Nat.eq_zero_or_pos step with h | h
+    · subst h; omega
+    · exact h
+  let F := tableF b ((kLut + b - 1) / b) ((k + b - 1) / b) step (if k % b ≠ 0 then 2 ^ (b - k % b) else 1) f
+  have hFlen : F.length = n := by rw [tableF_length, hdiv]
+  have hFr : InRange F := tableF_inRange _ _ _ _ _ f hb hb2
+  refine ⟨_, rotate kk (rotate (-((step / 2 : Nat) : Int)) F), hset, rfl, ?_, ?_⟩
+  · exact lutRotate_ext1 n kk _ (by rw [rotate_length]; exact hFlen) hn hn2 hk1 (by omega)
+  · rw [coeff0_rotate_rotate F hFr n hFlen hn]
+    have hM : (0 : Int) < 2 * (n : Int) := by omega
+    have h0 := Int.emod_nonneg (((step / 2 : Nat) : Int) - kk) (ne_of_gt hM)
+    have h1 := Int.emod_lt_of_pos (((step / 2 : Nat) : Int) - kk) hM
+    unfold sext
+    simp only [hFlen]
+    generalize hu : ((((step / 2 : Nat) : Int) - kk) % (2 * (n : Int))).toNat = u
+    have hu2 : u < 2 * n := by omega
+    by_cases hlt : u < n
+    · have hmod : u % n = u := Nat.mod_eq_of_lt hlt
+      rw [if_pos hlt, hmod, tableF_get _ _ _ _ _ f hstep u (by rw [← hdiv]; exact hlt)]
+      have hidx : u / step < f.length := Nat.div_lt_of_lt_mul (by rw [Nat.mul_comm, ← hdiv]; exact hlt)
+      rw [List.getElem?_eq_getElem hidx]
+      simp
+      intro h; omega
+    · have hmod : u % n = u - n := by
+        have : u = (u - n) + n := by omega
+        conv => lhs; rw [this]
+        rw [Nat.add_mod_right]; exact Nat.mod_eq_of_lt (by omega)
+      rw [if_neg hlt, hmod, tableF_get _ _ _ _ _ f hstep (u - n) (by rw [← hdiv]; omega)]
+      have hidx : (u - n) / step < f.length := Nat.div_lt_of_lt_mul (by rw [Nat.mul_comm, ← hdiv]; omega)
+      rw [List.getElem?_eq_getElem hidx]
+      simp
+      intro h; omega
 
 end C14
